@@ -1,6 +1,6 @@
 (** Executable comparison functions of the C20 correspondence check (cases are written by props/c20.py). *)
 From Coq Require Import List NArith ZArith Bool Arith.
-From V Require Import Common.Bytes Tok.Utf8 Tok.ByteMap Tok.Heap Tok.Vocab Tok.Special Tok.Bpe Tok.Spm.
+From V Require Import Common.Bytes Tok.Utf8 Tok.ByteMap Tok.Heap Tok.Vocab Tok.Special Tok.Bpe Tok.Spm Tok.Pretok.
 Import ListNotations.
 
 Fixpoint eqb_ids (a b : list Z) : bool :=
@@ -74,3 +74,27 @@ Definition chk_unmap (runes : list N) (bytes : str) : bool := eqb_str (unmap_run
 
 (** Go's conversions *)
 Definition chk_runes (s : str) (rs : list N) : bool := eqb_Ns (to_runes s) rs.
+
+(** the pre-tokeniser: the modelled pattern ([which] 0 = llama 3, 1 = tekken) with the class table observed for the
+    runes of the text, against the pieces the real regexp2 split returned *)
+Fixpoint eqb_strs (a b : list str) : bool :=
+  match a, b with
+  | [], [] => true
+  | x :: a', y :: b' => eqb_str x y && eqb_strs a' b'
+  | _, _ => false
+  end.
+(** 2 and 3 are not patterns of the repo: they exercise the match loop itself against the real engine - unmatched
+    runes are dropped ([\p{L}+|\p{N}{1,3}]), empty matches are yielded and the search restarts one rune further
+    ([\p{L}*]) *)
+Definition pattern_of (which : N) (tbl : list (N * N)) : re :=
+  let cls := cls_of_table tbl in
+  if (which =? 0)%N then llama3 cls
+  else if (which =? 1)%N then tekken cls
+  else if (which =? 2)%N then Alt (rplus (cls UL)) (Rep (cls UN) 1%nat (Some 3%nat))
+  else rstar (cls UL).
+Definition chk_pretok (which : N) (tbl : list (N * N)) (text : str) (pieces : list str) : bool :=
+  eqb_strs (pretok (pattern_of which tbl) text) pieces.
+
+(** every observed (fragment, pieces) answer of a BPE case against the modelled pattern *)
+Definition chk_pretok_tbl (which : N) (tbl : list (N * N)) (obs : split_table) : bool :=
+  forallb (fun e => eqb_strs (pretok (pattern_of which tbl) (fst e)) (snd e)) obs.
